@@ -122,6 +122,14 @@ def compare(op, a, b):
         return lift2(lambda x, y: compare(op, x, y), a, b)
     if type(op) in (ast.Is, ast.IsNot):
         r = a is b or (a is None and b is None)
+        # objects the model creates afresh at each mention but that are one object in Python: builtin types, modules, repo classes, small constants
+        pa, pb = getattr(a, "pytype", None), getattr(b, "pytype", None)
+        if pa is not None and pb is not None:
+            r = pa is pb
+        elif isinstance(a, (Module, ClassRef)) and type(a) is type(b):
+            r = a.name == b.name
+        elif isinstance(a, bool) and isinstance(b, bool):
+            r = a == b
         return r if isinstance(op, ast.Is) else not r
     if type(op) in (ast.In, ast.NotIn):
         if isinstance(b, GA):
